@@ -36,15 +36,15 @@ namespace SgVerif.C10
 
 /-! `answerTarget` only ever sets `wannadie` of the issuer -/
 theorem answerTarget_obs (s : St) (a : Nat) : (answerTarget s a).1.obs = s.obs := by
-  unfold answerTarget; (repeat' split) <;> simp [St.setActor]
+  unfold answerTarget markDying; (repeat' split) <;> simp [St.setActor]
 theorem answerTarget_crashed (s : St) (a : Nat) : (answerTarget s a).1.crashed = s.crashed := by
-  unfold answerTarget; (repeat' split) <;> simp [St.setActor]
+  unfold answerTarget markDying; (repeat' split) <;> simp [St.setActor]
 theorem answerTarget_acts (s : St) (a : Nat) : (answerTarget s a).1.acts = s.acts := by
-  unfold answerTarget; (repeat' split) <;> simp [St.setActor]
+  unfold answerTarget markDying; (repeat' split) <;> simp [St.setActor]
 theorem answerTarget_hostOn (s : St) (a : Nat) : (answerTarget s a).1.hostOn = s.hostOn := by
-  unfold answerTarget; (repeat' split) <;> simp [St.setActor]
+  unfold answerTarget markDying; (repeat' split) <;> simp [St.setActor]
 theorem answerTarget_other (s : St) (a b : Nat) (hb : b ≠ a) : (answerTarget s a).1.actors b = s.actors b := by
-  unfold answerTarget; (repeat' split) <;> simp [St.setActor, upd, hb]
+  unfold answerTarget markDying; (repeat' split) <;> simp [St.setActor, upd, hb]
 
 /-! `commAfter` -/
 theorem commAfter_emits (k : Nat) (s : St) (a : Nat) (hk : NetClass (s.acts k).state) :
